@@ -40,6 +40,26 @@ Theorem C05_copies_once : forall cf st c r m, NoDup (map fst (eav_out cf st c r 
 Proof. exact eavesdrop_once. Qed.
 Print Assumptions C05_copies_once.
 
+(* messages addressed to the bus driver (org.freedesktop.DBus) are unicast too: the caller gets the driver's reply, and a copy of the
+   call (OCall) goes only to connections holding an eavesdrop='true' rule that matches it -- never to the holder of a plain rule --
+   one per connection *)
+Theorem C05_driver_call_copies_only_to_eavesdroppers : forall cf st c s x,
+  In x (drv_copies cf st c s) ->
+  snd x = OCall c s /\ exists rl, In (fst x, rl) (st_rules st) /\ r_eaves rl = true /\ drv_rule_matches st rl c = true.
+Proof. exact driver_call_copies. Qed.
+Print Assumptions C05_driver_call_copies_only_to_eavesdroppers.
+
+Theorem C05_driver_call_copies_once : forall cf st c s, NoDup (map fst (drv_copies cf st c s)).
+Proof. exact driver_call_copies_once. Qed.
+Print Assumptions C05_driver_call_copies_once.
+
+Theorem C05_driver_step_output : forall cf st e c s,
+  wf_event st e = true ->
+  match e with EReleaseName c' s' _ | EAddMatch c' s' _ | EDriverCall c' s' => c' = c /\ s' = s | _ => False end ->
+  exists code st', snd (step cf st e) = [(c, ODrv s code)] ++ drv_copies cf st' c s.
+Proof. exact driver_step_output. Qed.
+Print Assumptions C05_driver_step_output.
+
 (* no step other than a send forwards anything -- unless messages are held for an activation (then RequestName releases them) *)
 Theorem C05_only_sends_forward : forall cf st e x,
   st_held st = [] ->
@@ -131,6 +151,13 @@ Theorem C05_close_cleans_up : forall cf st c,
   (forall x, In x (st_rules st') -> fst x <> c).
 Proof. exact close_cleans_up. Qed.
 Print Assumptions C05_close_cleans_up.
+
+(* non-vacuity: 1 holds a plain catch-all rule, 2 an eavesdrop rule; 0 calls RequestName: only 2 gets a copy *)
+Example ex_driver_call_copy :
+  snd (step cfg_p (state_of cfg_p [EConnect false; EConnect false; EConnect false; EAddMatch 1 9 (mkRule false None None None); EAddMatch 2 9 (mkRule true None None None)])
+            (ERequestName 0 5 3 false false false))
+  = [(0, ODrv 5 1); (2, OCall 0 5)].
+Proof. vm_compute. reflexivity. Qed.
 
 (* non-vacuity: two messages held for t.N8, released in order to the connection that acquires it, before its RequestName reply *)
 Definition m8a : msg := mkMsg TCall true false 3 0 (DName 8) 0 1.
